@@ -765,7 +765,10 @@ impl<'a> Elab<'a> {
             Expr::Call(c) => {
                 if let Expr::Path(p) = &*c.func {
                     let n = p.path.segments.last().unwrap().ident.to_string();
-                    if self.t.internal_async.contains(&n) {
+                    // a path into another crate (`tokio::task::spawn_blocking`) is not one of the unit's own functions, whatever its last segment
+                    let first = p.path.segments.first().unwrap().ident.to_string();
+                    let local_path = p.path.segments.len() == 1 || matches!(first.as_str(), "Self" | "self" | "crate" | "super");
+                    if local_path && self.t.internal_async.contains(&n) {
                         internal = true;
                     } else if self.u.extasync.contains(&n) {
                         ext_call = true;
@@ -2047,6 +2050,10 @@ impl<'a> Elab<'a> {
         if (name == "panic" || name == "unreachable") && self.ctl {
             let drops = self.unwind_drops();
             return parse_quote!({ #(#drops)* return Ctl::Unwind; });
+        }
+        // ... in a function that cannot unwind: the statement must be provably unreachable ("never panics")
+        if name == "panic" || name == "unreachable" {
+            return parse_quote!(vx_unreachable());
         }
         if name == "matches" {
             // matches!(e, pat) → match e { pat => true, _ => false }
